@@ -195,3 +195,22 @@ def cast_programs():
             for body in bodies:
                 out.append("fn main()\n{\n" + decl + body + "}\n")
     return out
+
+
+def constant_hazards():
+    """constants whose initializer does not fold to a plain integer (division / remainder by zero, over-wide shifts, wrapping),
+    used by another constant, as an array length (variable, member, parameter), in a size query and at run time"""
+    out = []
+    exprs = ["1 / 0", "1 % 0", "0 / 0", "1 << 64", "1 << 200", "0 - 1", "7 / Z", "7 % Z", "|:S| / Z", "(1 / 0) + 1", "0 * (1 / 0)",
+             "1 / (Z * 2)", "18446744073709551615 + 1", "1 >> 64"]
+    uses = ["const M: usize = N;\n", "const M: usize = N + 1;\n", "fn f()\n{\n\tvar a: [N]i32;\n}\n", "struct T\n{\n\tm: [N]u8,\n}\n",
+            "fn f(a: [N]u8)\n{\n}\n", "fn f() -> usize\n{\n\treturn: N\n}\n", "fn f() -> usize\n{\n\tvar a: [2][N]u8;\n\treturn: |a[0]|\n}\n",
+            "const M: usize = |:[N]u8|;\n", "struct T\n{\n\tm: &[N]u8,\n}\n", ""]
+    pre = "const Z: usize = 0;\nstruct S\n{\n\ta: u8,\n}\n"
+    for e in exprs:
+        for u in uses:
+            out.append(pre + "const N: usize = %s;\n" % e + u)
+            out.append(u + "const N: usize = %s;\n" % e + pre)
+        for t in ("i32", "u8", "i8", "u64", "i128"):
+            out.append(pre + "const N: %s = %s;\nfn main() -> %s\n{\n\treturn: N\n}\n" % (t, e.replace("|:S|", "8"), t))
+    return out
